@@ -23,6 +23,7 @@ class IterSpec:
     ordered: bool = True
     adv: Any = None          # for enumerate(start=<index>): captured base index entry
     listsym: Any = None      # heap symbol of the list being iterated, if any
+    live_parent: Any = None  # element whose live child list is being iterated
 
 
 def _Raise():
@@ -123,6 +124,8 @@ class ModelMixin(ModelMixin2, ModelMixin3):
                 return f'found({o[2]} in {d(o[1])} by {o[3]})'
             if k == 'copy':
                 return f'deepcopy({d(o[1])})'
+            if k == 'shallowcopy':
+                return f'copy({d(o[1])})'
             if k == 'new':
                 return f'SubElement({d(o[2])}, {o[1]!r})' if len(o) > 2 and o[2] else f'Element({o[1]!r})'
             if k == 'text':
@@ -699,7 +702,7 @@ class ModelMixin(ModelMixin2, ModelMixin3):
             if e.anchor == n_sym:
                 return replace(e, kind='slot')
             if ('before', n_sym, e.anchor) in st.facts:
-                return replace(e, delta=e.delta + 1)
+                return replace(e, delta=min(e.delta + 1, 3))
             if ('notbefore', n_sym, e.anchor) in st.facts or ('before', e.anchor, n_sym) in st.facts:
                 return e
             return replace(e, kind='stale', why=f'{self.describe(Ref("elem", n_sym), st)} was removed from the same parent after this index was taken')
@@ -719,7 +722,16 @@ class ModelMixin(ModelMixin2, ModelMixin3):
             return replace(e, kind='stale', why='a node was inserted into the same parent after this index was taken')
         return e
 
+    def dirty_snapshots(self, st: State, p_sym):
+        for sym, e in list(st.heap.items()):
+            if isinstance(e, ListE) and e.parent == p_sym and e.kind in ('children', 'findall') and not e.dirty:
+                st.heap[sym] = replace(e, dirty=True)
+
     def log_mut(self, st: State, rec):
+        if rec[1] is not None:
+            self.dirty_snapshots(st, rec[1])
+            if rec[1] in (st.mon.get('livedepth') or {}).values() and rec[0] != 'setitem':
+                self.hook('live-mutation', st, None, parent=Ref('elem', rec[1]), op=rec[0])
         logs = st.mon.get('itlog')
         if logs:
             st.mon['itlog'] = {d: (l + (rec,))[-6:] for d, l in logs.items()}
@@ -828,7 +840,13 @@ class ModelMixin(ModelMixin2, ModelMixin3):
         if isinstance(c, Ref) and c.kind == 'elem' and isinstance(i, Ref) and i.kind == 'idx':
             ie: IdxE = st.get(i.sym)
             self.check_index(c, i, st, node, 'delitem')
-            if ie.kind == 'fresh' and ie.anchor:
+            if ie.kind == 'fresh' and ie.anchor and ie.delta == 0:
                 return self.do_remove(c, Ref('elem', ie.anchor), st, node)
+            self.hook('remove-by-index', st, node, parent=c, idx=i, entry=ie)
+            self.log_mut(st, ('remove', c.sym, None, i.sym))
+            for sym, e in self.parent_indices(c.sym, st):
+                if e.kind in ('fresh', 'slot'):
+                    st.put(sym, replace(e, kind='stale', why='a child was deleted by position'))
+            return [(NoneV(), st)]
         self.note('del item on ' + type(c).__name__)
         return [(NoneV(), st)]
